@@ -30,6 +30,11 @@ pub fn verif_panic()
 {
 }
 
+// assumed std spec (trusted): Option::is_some_and applies the predicate to the payload
+pub assume_specification<T, F: FnOnce(T) -> bool> [Option::<T>::is_some_and] (o: Option<T>, f: F) -> (r: bool)
+    requires o is Some ==> f.requires((o->0,)),
+    ensures r == (o is Some && f.ensures((o->0,), true)), (o is Some && !r) ==> f.ensures((o->0,), false);
+
 impl LexerSpec {
 //@@ fn parser/src/earley/lexerspec.rs LexerSpec::can_rollback
 //@ ret r
@@ -137,7 +142,9 @@ impl ParserState {
                 &&& !final(self).lexer_stack_top_eos
                 // no Earley row beyond the restored table stays valid, no forced bytes survive, no cached mask survives
                 &&& final(self).rows_valid_end == final(self).spec_num_rows()
-                &&& (n_bytes == 0 || final(self).bias_cache is None)
+                // cache_live: a cached mask that survives refers to an Earley row that survived (and is the old entry)
+                &&& ((final(self).bias_cache is None) || (final(self).bias_cache == old(self).bias_cache
+                        && (n_bytes == 0 || (final(self).bias_cache->0.row_idx as int) < final(self).spec_num_rows())))
                 &&& final(self).inv()
                 &&& final(self).parser_error == old(self).parser_error
                 &&& final(self).scratch == old(self).scratch
